@@ -245,6 +245,42 @@ Theorem dither_f64_zero_coeff : forall (sz : bool) ip ax x g, axis_ok ax = true 
 Proof. exact dither_f64_zero_coeff_l. Qed.
 Print Assumptions dither_f64_zero_coeff.
 
+(* arbitrary finite float64 signal and coefficient (e.g. the default 0.97): each
+   sample is the twice-rounded  rnd(x[i+1] - rnd(c * x[i]))  and lies within two
+   unit roundoffs (u64 = 2^-53; eta64 = underflow) of the real-number recurrence;
+   the first sample is returned unchanged *)
+Theorem preemph_f64_accuracy : forall (cf : b64) (x : list b64) ip ax r i,
+  axis_ok ax = true -> (S i < length x)%nat ->
+  let a := nth i x (B754_zero false) in
+  let b := nth (S i) x (B754_zero false) in
+  is_finite cf = true -> is_finite a = true -> is_finite b = true ->
+  Rabs (rnd64 (B2R cf * B2R a)) < bpow radix2 1024 ->
+  Rabs (rnd64 (B2R b - rnd64 (B2R cf * B2R a))) < bpow radix2 1024 ->
+  exists y, out_arr (run nops ngen (VF cf) ip ax preemph_prog (Build_arr F64 (map VF x)) r)
+            = Some (Build_arr F64 y) /\
+    length y = length x /\
+    nth 0 y (VF (B754_zero false)) = VF (nth 0 x (B754_zero false)) /\
+    vR (nth (S i) y (VF (B754_zero false))) = rnd64 (B2R b - rnd64 (B2R cf * B2R a)) /\
+    Rabs (vR (nth (S i) y (VF (B754_zero false))) - (B2R b - B2R cf * B2R a)) <=
+      u64 * (Rabs (B2R cf * B2R a) + Rabs (B2R b - rnd64 (B2R cf * B2R a))) + 2 * eta64.
+Proof. exact preemph_f64_accuracy_l. Qed.
+Print Assumptions preemph_f64_accuracy.
+
+(* float64 Dither: sample i is rnd(x[i] + rnd(c * g[i])), g the deviates *)
+Theorem dither_f64_value : forall (cf : b64) (x g : list b64) ip ax i,
+  axis_ok ax = true -> length g = length x -> (i < length x)%nat ->
+  let xi := nth i x (B754_zero false) in
+  let gi := nth i g (B754_zero false) in
+  is_finite cf = true -> is_finite gi = true -> is_finite xi = true ->
+  Rabs (rnd64 (B2R cf * B2R gi)) < bpow radix2 1024 ->
+  Rabs (rnd64 (B2R xi + rnd64 (B2R cf * B2R gi))) < bpow radix2 1024 ->
+  exists y, out_arr (run nops ngen (VF cf) ip ax dither_prog (Build_arr F64 (map VF x)) (map VF g))
+            = Some (Build_arr F64 y) /\
+    length y = length x /\
+    vR (nth i y (VF (B754_zero false))) = rnd64 (B2R xi + rnd64 (B2R cf * B2R gi)).
+Proof. exact dither_f64_value_l. Qed.
+Print Assumptions dither_f64_value.
+
 (* ---------------- sample moments of the noise (reals) ---------------- *)
 Theorem dither_moments : forall RS (G : rngm R RS) c ip ax d x r y, axis_ok ax = true ->
   out_arr (run Stats.Rops G c ip ax dither_prog (Build_arr d x) r) = Some y ->
